@@ -582,6 +582,35 @@ func runC12(w *World, c *Check) {
 		}
 	}
 
+	// ---- UDP: the datagram read must have room for a KDC's reply ---------------------------------
+	// A datagram longer than the buffer is cut without an error, and a cut reply is neither the KDC's
+	// answer nor a reason to retry over TCP. The tree reads into 4096 bytes (what KDCs send at most
+	// over UDP before answering "response too big"); the request-size limit (udp_preference_limit,
+	// 1465) is not a bound on replies.
+	if uf := w.Func("client.sendUDP"); uf == nil {
+		c.Missing("C12.framing", "client.sendUDP")
+	} else {
+		ua := NewFuncAn(w, uf)
+		n, small := 0, ""
+		bc := newBoundsCtx(w, uf)
+		for _, dc := range ua.CallsDeep(`net\.\(\*UDPConn\)\.(ReadFrom|Read|ReadFromUDP)`) {
+			args := dc.ci.Common().Args
+			if len(args) < 2 {
+				continue
+			}
+			n++
+			lbc := bc
+			if dc.fa.Fn != uf {
+				lbc = newBoundsCtx(w, dc.fa.Fn)
+			}
+			l := lbc.lenLin(args[1], 0)
+			if !l.isConst() || l.k < 4096 {
+				small = fmt.Sprintf("%s reads into %s", w.Pos(InstrPos(dc.ci)), dc.fa.R.R(args[1]))
+			}
+		}
+		c.Decide(n >= 1 && small == "", "C12.framing", "client.sendUDP", "udp-receive-buffer", w.Pos(uf.Pos()), "the UDP reply is read into a buffer of at least 4096 bytes", small)
+	}
+
 	// ---- rule 6: no recursion ---------------------------------------------------------
 	cg := w.CallGraph()
 	seen := map[*ssa.Function]bool{}
